@@ -321,6 +321,18 @@ class NpProxy:
         if name in special:
             return special[name]
         if isinstance(attr, real_np.ufunc):
+            if name in A.UFUNCS:
+                model = A.UFUNCS[name]
+
+                def uf(*a, **k):
+                    # scalar R / B operands never reach SymArray.__array_ufunc__; route them to the same models
+                    if not k and any(isinstance(x, (R, B)) for x in a):
+                        return model(*a)
+                    return attr(*a, **k)
+                for nm in ('reduce', 'outer', 'at', 'accumulate', 'reduceat'):
+                    setattr(uf, nm, getattr(attr, nm))
+                uf.__name__ = name
+                return uf
             return attr
         if callable(attr) and not isinstance(attr, type):
             def f(*a, **k):
@@ -523,6 +535,8 @@ class TDistStub:
                 return ONE
             if v.tag == '-inf':
                 return ZERO
+            if v.is_const and v.c == 0:
+                return R.const(Fraction(1, 2))       # symmetry of the t distribution
             return core.make_atom(kname, v)
         if isinstance(x, R) and isinstance(dfa, R):
             return one(x, dfa)
